@@ -709,6 +709,11 @@ func (n *Node) cbGetVerified() []dbft.Transaction[Hash] {
 			if o.Kind == OGetVerified && len(o.Hashes) > 0 {
 				hide = true
 				n.s.fault("pool_emptied_between_two_reads_in_one_call")
+				if n.st.Op == OpNewTx {
+					// inside a notification this is the 'notified transaction is gone again'
+					// case: a prompt empty proposal and going on waiting are both acceptable
+					n.st.Evicted = true
+				}
 				break
 			}
 		}
